@@ -37,6 +37,8 @@ where CL03<CS>: Scheme<PubKey = CL03PublicKey, PrivKey = CL03SecretKey>, CS::Has
     // hidden-position lists that are NOT in ascending order (the API takes any list): whatever the prover does with them,
     // the proof it hands out must not leak more than for the sorted list
     for n in 2..=maxn { for u in subsets(n) { if u.len() >= 2 { let mut r = u.clone(); r.reverse(); specs.push(("signature-proof", n, r.clone(), false, "")); specs.push(("issuance", n, r, false, "")); } } }
+    // many attributes: position 7 of 8 and position 65 of 66 (a fixed-width index set, a window of blindings, ... shows only there)
+    if w.bases.0.len() >= 66 { specs.push(("signature-proof", 8, vec![3], false, "")); specs.push(("signature-proof", 8, vec![0, 7], false, "")); specs.push(("issuance", 8, vec![0, 7], false, "")); specs.push(("signature-proof", 66, vec![1, 65], false, "")); specs.push(("issuance", 66, vec![1, 65], false, "")); }
     if maxn >= 3 { specs.push(("signature-proof", 3, vec![2, 0], false, "")); specs.push(("signature-proof", 3, vec![1, 2, 0], false, "")); specs.push(("issuance", 3, vec![2, 0], false, "")); }
     let out = std::sync::Mutex::new(Vec::new());
     par_for(&specs, |_, (kind, n, u, trusted, var)| {
@@ -67,7 +69,7 @@ where CL03<CS>: Scheme<PubKey = CL03PublicKey, PrivKey = CL03SecretKey>, CS::Has
 pub fn run<CS: Suite>(env: &Env)
 where CL03<CS>: Scheme<PubKey = CL03PublicKey, PrivKey = CL03SecretKey>, CS::HashAlg: sha2::Digest {
     let maxn = if env.thorough() { 3 } else { 2 };
-    let w: World<CS> = World::generate(maxn);
+    let w: World<CS> = World::generate(66);
     let items = collect::<CS>(env, &w, maxn, "c17");
     env.ctx.set_rule("every honest issuance proof (all non-empty hidden subsets, + one with trusted party) and signature proof (all subsets), n <= 2 (thorough 3). In the JSON view: (i) every object shaped {value, randomness} and (ii) every ordered pair of integer leaves (quick: sibling pairs under one parent; thorough: all ordered pairs for n <= 2, sibling pairs for n = 3) is tested as an opening (V, R): for every public base pair (g, h, N) in {(a_i, b, N)} u {(g_i, h_c, N)} u {(g_i', h', N') of the trusted key} and every secret x the prover holds (hidden m_i, e, s, v, r): V != g^x * h^R; V * g^(-R) != v; the full-vector opening V = prod g_i^{m_i} * h^R with revealed attributes known; no leaf equals x, c*x or (1+c)*x for a hidden attribute x and a challenge c the recipient has or can recompute; and the dictionary attack with candidates {true value, true value + 1}: the test must not single out the true candidate; sibling responses must not differ by challenge * (m_i - m_j); inside every embedded range proof no product / quotient of two of the commitments E, E', E_a_1, E_a_2, E_b_1, E_b_2 equals g^y for y in {x_a1^2, x_a2, x_b1^2, x_b2, x_a1, x_b1, 2^T x - aa, bb - 2^T x} or a sum / difference of two of them (true secret x versus x + 1). Hidden-position lists are also given in non-ascending order. State = (proof, leaf pair); non-trivial = at least one modular recomputation against a real serialized proof.");
     par_for(&items, |_, it| {
@@ -84,7 +86,8 @@ where CL03<CS>: Scheme<PubKey = CL03PublicKey, PrivKey = CL03SecretKey>, CS::Has
         } }
         // public base pairs
         let mut bases: Vec<(String, Integer, Integer, Integer)> = Vec::new();
-        for i in 0..n { bases.push((format!("(a_{}, b, N)", i), w.bases.0[i].clone(), w.pk.b.clone(), w.pk.N.clone())); bases.push((format!("(g_{}, h, N)", i), w.cpk.g_bases[i].clone(), w.cpk.h.clone(), w.cpk.N.clone())); bases.push((format!("(g'_{}, h', N')", i), w.cpk_own.g_bases[i].clone(), w.cpk_own.h.clone(), w.cpk_own.N.clone())); }
+        // for credentials with many attributes only the bases of the hidden positions and of position 0 are tried
+        for i in (0..n).filter(|i| n <= 4 || *i == 0 || it.hidden.contains(i)) { bases.push((format!("(a_{}, b, N)", i), w.bases.0[i].clone(), w.pk.b.clone(), w.pk.N.clone())); bases.push((format!("(g_{}, h, N)", i), w.cpk.g_bases[i].clone(), w.cpk.h.clone(), w.cpk.N.clone())); bases.push((format!("(g'_{}, h', N')", i), w.cpk_own.g_bases[i].clone(), w.cpk_own.h.clone(), w.cpk_own.N.clone())); }
         let families: Vec<(&str, Vec<Integer>, Integer, Integer)> = vec![("(a_*, b, N)", w.bases.0[..n].to_vec(), w.pk.b.clone(), w.pk.N.clone()), ("(g_*, h, N)", w.cpk.g_bases[..n].to_vec(), w.cpk.h.clone(), w.cpk.N.clone()), ("(g'_*, h', N')", w.cpk_own.g_bases[..n].to_vec(), w.cpk_own.h.clone(), w.cpk_own.N.clone())];
         let v_sig = it.secrets.iter().find(|s| s.0 == "signature v").map(|s| s.1.clone());
         let det0 = json!({"suite": CS::NAME, "proof": it.id, "n": n, "hidden": it.hidden});
@@ -109,7 +112,7 @@ where CL03<CS>: Scheme<PubKey = CL03PublicKey, PrivKey = CL03SecretKey>, CS::Has
                 if let Some(vs) = &v_sig { if (V.clone() * modpow(g, &(-R.clone()), nn)) % nn == *vs { hit("recovers-v", format!("value * g^(-randomness) = v with base {}", bn)); } }
             }
             // full-vector opening with the revealed attributes known to the recipient: candidates for the hidden ones true / true+1
-            for (fname, gs, h, nn) in &families {
+            for (fname, gs, h, nn) in families.iter().filter(|_| n <= 4 || shaped) {
                 let hr = modpow(h, &R, nn);
                 let mut acc_true = hr.clone(); let mut acc_alt = hr.clone();
                 for i in 0..n { acc_true = (acc_true * modpow(&gs[i], &it.m[i], nn)) % nn; let alt = if it.hidden.contains(&i) { it.m[i].clone() + 1u32 } else { it.m[i].clone() }; acc_alt = (acc_alt * modpow(&gs[i], &alt, nn)) % nn; }
@@ -177,7 +180,7 @@ where CL03<CS>: Scheme<PubKey = CL03PublicKey, PrivKey = CL03SecretKey>, CS::Has
                         if i == j && op == "/" { continue; }
                         let v2 = if i == j { Integer::from(1) } else if op == "*" { sub[j].1.clone() } else { match sub[j].1.clone().invert(nn) { Ok(x) => x, Err(_) => continue } };
                         let p_ = (sub[i].1.clone() * v2) % nn;
-                        if p_ == 1 { continue; } // two copies of the same commitment (the proof of square repeats E_x_1): carries nothing
+                        if p_ == 1 && i != j { continue; } // two copies of the same commitment (the proof of square repeats E_x_1): carries nothing
                         env.ctx.step();
                         for (k, (gt, ga)) in gy.iter().enumerate() {
                             if p_ == *gt && p_ != *ga {
